@@ -101,3 +101,40 @@ func TestSelf(t *testing.T) {
 		}
 	})
 }
+
+func TestCollideInts(t *testing.T) {
+	type S struct {
+		A int
+		B int64
+		L []uint32
+	}
+	fold := func(xs ...uint64) uint64 {
+		h := uint64(17)
+		for _, x := range xs {
+			h = 31*h + x
+		}
+		return h
+	}
+	v := reflect.ValueOf([]int{3, 0, 7})
+	c, n := CollideInts(v)
+	got := c.Interface().([]int)
+	if n != 1 || got[0] != 2 || got[1] != 31 || got[2] != 7 {
+		t.Fatalf("got %v n=%d", got, n)
+	}
+	if fold(3, 0, 7) != fold(uint64(got[0]), uint64(got[1]), uint64(got[2])) {
+		t.Fatal("fold differs")
+	}
+	if v.Interface().([]int)[0] != 3 {
+		t.Fatal("input modified")
+	}
+	s := reflect.ValueOf(&S{A: -5, B: 9, L: []uint32{0, 1}})
+	c2, n2 := CollideInts(s)
+	s2 := c2.Interface().(*S)
+	if n2 != 1 || s2.A != -6 || s2.B != 40 {
+		t.Fatalf("got %+v n=%d", s2, n2)
+	}
+	mx := reflect.ValueOf([]uint32{0, 4294967295})
+	if _, n3 := CollideInts(mx); n3 != 0 {
+		t.Fatalf("unrepresentable pair changed")
+	}
+}
